@@ -106,6 +106,36 @@ func c12Run(c c12Case, v *vlib.Verdict) {
 				}
 			}
 			got = out[pre:]
+		case 4: // in place behind a live prefix: dst = pkt[:hdr], plaintext = pkt[hdr:hdr+n] (the overlap cipher.AEAD permits)
+			aliased = true
+			pre := 12
+			buf := make([]byte, pre+m.PLen, pre+m.PLen+TagSize+6)
+			for j := 0; j < pre; j++ {
+				buf[j] = byte(0xC0 + j)
+			}
+			copy(buf[pre:], pt)
+			guard := buf[:cap(buf)][pre+m.PLen+TagSize:]
+			for j := range guard {
+				guard[j] = 0xA5
+			}
+			out := sealer.Seal(buf[:pre], nil, buf[pre:pre+m.PLen], ad)
+			if len(out) != pre+m.PLen+TagSize {
+				v.Failf("C12:seal-length", "msg %d: Seal returned %d bytes, want %d", i, len(out), pre+m.PLen+TagSize)
+				return
+			}
+			for j := 0; j < pre; j++ {
+				if out[j] != byte(0xC0+j) {
+					v.Failf("C12:seal-clobbered-prefix", "msg %d: in-place Seal behind a prefix modified prefix byte %d", i, j)
+					return
+				}
+			}
+			for j := range guard {
+				if guard[j] != 0xA5 {
+					v.Failf("C12:seal-wrote-outside-result", "msg %d: Seal modified byte %d past the returned slice", i, j)
+					return
+				}
+			}
+			got = out[pre:]
 		case 3: // ad and plaintext share one backing array
 			aliased = true
 			buf := make([]byte, m.ALen+m.PLen)
@@ -189,6 +219,29 @@ func c12Run(c c12Case, v *vlib.Verdict) {
 			aliased = true
 			buf := append([]byte(nil), got...)
 			opened, oerr = opener.Open(buf[:0], nil, buf, ad)
+		case 3: // in place behind a live prefix: dst = pkt[:hdr], ciphertext = pkt[hdr:]
+			aliased = true
+			pre := 9
+			buf := make([]byte, pre+len(got))
+			for j := 0; j < pre; j++ {
+				buf[j] = byte(0xD0 + j)
+			}
+			copy(buf[pre:], got)
+			var out []byte
+			out, oerr = opener.Open(buf[:pre], nil, buf[pre:], ad)
+			if oerr == nil {
+				if len(out) != pre+m.PLen {
+					v.Failf("C12:open-length", "msg %d: Open returned %d bytes, want %d", i, len(out), pre+m.PLen)
+					return
+				}
+				for j := 0; j < pre; j++ {
+					if out[j] != byte(0xD0+j) {
+						v.Failf("C12:open-clobbered-prefix", "msg %d: in-place Open behind a prefix modified prefix byte %d", i, j)
+						return
+					}
+				}
+				opened = out[pre:]
+			}
 		case 2:
 			aliased = true
 			pre := 5
@@ -294,8 +347,8 @@ func c12Gen(rec *vlib.Recorder) func(t *rapid.T) c12Case {
 				PLen:   lenGen.Draw(t, "plen"),
 				ALen:   rapid.OneOf(rapid.SampledFrom(c12Lens), rapid.IntRange(0, 300)).Draw(t, "alen"),
 				Seed:   rapid.Uint64().Draw(t, "seed"),
-				Alias:  rapid.IntRange(0, 3).Draw(t, "alias"),
-				OAlias: rapid.IntRange(0, 2).Draw(t, "oalias"),
+				Alias:  rapid.IntRange(0, 4).Draw(t, "alias"),
+				OAlias: rapid.IntRange(0, 3).Draw(t, "oalias"),
 			}
 		}), 1, maxMsgs).Draw(t, "msgs")
 		c.Tampers = rapid.SliceOfN(rapid.Custom(func(t *rapid.T) c12Tamper {
